@@ -295,6 +295,45 @@ func (m *Machine) Commit() error {
 	return nil
 }
 
+// emptyBase makes the history start from a committed state that holds empty accounts
+// (nonce 0, balance 0, no code) at Addrs[0] and/or Addrs[1]: the one configuration in
+// which deleteEmptyObjects=false is used (a state built without EIP-158 clearing, e.g.
+// imported allocations); everything afterwards runs with deleteEmptyObjects=true as the
+// chain does. Only as the very first operation. The RIPEMD address is left out: its
+// touch survives a revert by design (consensus exception).
+func (m *Machine) emptyBase(mask int) bool {
+	if m.Committed || m.SinceBlock > 0 || m.OpsSinceRoot > 0 || len(m.TxHashes) > 1 || mask&3 == 0 {
+		return false
+	}
+	for a := 0; a < 2; a++ {
+		if mask>>uint(a)&1 == 1 {
+			m.St.AddBalance(Addrs[a], new(big.Int))
+		}
+	}
+	a, b, c, err := m.St.Commit(false)
+	if err != nil {
+		panic(err)
+	}
+	for _, r := range []common.Hash{a, b, c} {
+		if err := m.DB.TrieDB().Commit(r, false); err != nil {
+			panic(err)
+		}
+	}
+	m.Roots = [3]common.Hash{a, b, c}
+	m.Committed = true
+	st, db, disk, err := m.Open(1)
+	if err != nil {
+		panic(err)
+	}
+	m.Adopt(st, db, disk)
+	m.noteParents()
+	m.label("empty-accounts-in-base")
+	return true
+}
+
+// NoteSrecWrite records that the harness wrote a staking record directly.
+func (m *Machine) NoteSrecWrite() { m.UncommittedSrec, m.DirtySrec = true, true }
+
 // dlgListOf returns the delegator-side list of an account as a string ("" if none).
 func (m *Machine) dlgListOf(st *state.StateDB, a common.Address) (s string) {
 	defer func() {
@@ -408,6 +447,9 @@ func bit(n uint64, i uint) bool { return n>>i&1 == 1 }
 // nonce of a withdraw record it may create); it returns false for a no-op (precondition
 // of the replayed caller not met).
 func (m *Machine) Exec(idx int, op Op) bool {
+	if op.K == "emptybase" {
+		return m.emptyBase(op.M)
+	}
 	st := m.St
 	m.opIdx = idx
 	m.SinceBlock++
@@ -420,6 +462,9 @@ func (m *Machine) Exec(idx int, op Op) bool {
 	switch op.K {
 	// ---- accounts ----------------------------------------------------------------
 	case "addbal":
+		if a := Addrs[op.A%NAll]; op.N == 0 && st.Exist(a) && st.Empty(a) {
+			m.label("touch-existing-empty")
+		}
 		st.AddBalance(Addrs[op.A%NAll], new(big.Int).SetUint64(op.N))
 	case "subbal":
 		a := Addrs[op.A%NAll]
@@ -459,6 +504,9 @@ func (m *Machine) Exec(idx int, op Op) bool {
 		}
 		st.SetState(Addrs[op.A%NAcct], common.BytesToHash([]byte{byte(op.S%NSlot + 1)}), common.BigToHash(new(big.Int).SetUint64(op.N)))
 	case "suicide":
+		if st.HasSuicided(Addrs[op.A%NAcct]) && st.GetBalance(Addrs[op.A%NAcct]).Sign() > 0 {
+			m.label("suicide-again-after-receiving")
+		}
 		return st.Suicide(Addrs[op.A%NAcct])
 	case "create":
 		a := Addrs[op.A%NAcct]
